@@ -1,5 +1,5 @@
 (* Lemmas about the byte-string primitives of Bytes.v. *)
-From Coq Require Import List NArith ZArith Bool Lia.
+From Coq Require Import List NArith ZArith Bool Lia ZifyBool ZifyNat ZifyN.
 From Coq.Strings Require Import Byte.
 Import ListNotations.
 From BWValues Require Import Bytes.
